@@ -737,6 +737,18 @@ n('C09', '_point_vector: factor order', FIELDS,
   "        s[ix1, iy, iz] = rx*ey*ez", "        s[ix1, iy, iz] = ez*rx*ey")
 
 # ------------------------------------------------------------------- C10
+m('C10', 'Dipole: identical-electrode test with a relative tolerance (defect F38)', ELEC,
+  "            if np.allclose(points[0, :], points[1, :], rtol=0, atol=1e-15):",
+  "            if np.allclose(points[0, :], points[1, :]):", 'C10.GE.formats')
+n('C10', 'Dipole: identical-electrode test exact', ELEC,
+  "            if np.allclose(points[0, :], points[1, :], rtol=0, atol=1e-15):",
+  "            if np.array_equal(points[0, :], points[1, :]):")
+m('C10', '_dipole_vector: exact in-cell test on rounded nodes / unrounded widths (defect F37)', FIELDS,
+  "                inside = np.round(min(rx, ex, ry, ey, rz, ez), decimals) >= 0\n                if inside and np.max(abs(ar-al)) > 0:",
+  "                if min(rx, ex, ry, ey, rz, ez) >= 0 and np.max(abs(ar-al)) > 0:", 'C10.DV.linear')
+n('C10', '_dipole_vector: in-cell test with a tolerance', FIELDS,
+  "                inside = np.round(min(rx, ex, ry, ey, rz, ez), decimals) >= 0\n                if inside and np.max(abs(ar-al)) > 0:",
+  "                if min(rx, ex, ry, ey, rz, ez) >= -10.0**(-decimals) and np.max(abs(ar-al)) > 0:")
 m('C10', 'get_source_field: strength zero means unit source', FIELDS,
   "    sfield.field *= source.strength", "    if source.strength != 0:\n        sfield.field *= source.strength", 'C10.SF.scaling')
 m('C10', 'Dipole: magnetic loop centred at e1 + e2', ELEC,
